@@ -454,6 +454,10 @@ fn entry_name(e: Entry) -> &'static str {
     }
 }
 
+pub fn entry_by_name(s: &str) -> Entry {
+    entry_from(s)
+}
+
 fn entry_from(s: &str) -> Entry {
     for e in ENTRIES {
         if entry_name(e) == s {
